@@ -23,6 +23,32 @@ pub const STRS: &[&str] = &[
     "\"\"\"a", "'''", "\"\\", "\"\u{0}\"", "\"\t\"", "\"\\t\"", "\"\\r\"", "\"a\\\r\nb\"",
 ];
 
+const STR_PIECES: &[&str] = &[
+    "a", "xyz", " ", "0", "é", "名", "😀", "\u{301}", "\u{feff}", "\u{a0}", "\\n", "\\t", "\\\\", "\\\"", "\\'", "\\x41", "\\x4", "\\x", "\\xg1", "\\u00e9", "\\u12", "\\u", "\\ud800",
+    "\\U0001F600", "\\U0001", "\\U00110000", "\\U", "\\101", "\\400", "\\7", "\\8", "\\0", "\\q", "\\é", "\\名", "\\😀", "\\", "\\\n", "\\\r\n", "\\\r", "\n", "\r", "\t", "\u{0}", "{", "}", "{{", "}}",
+    "{x}", "{x!r}", "{x!s}", "{ x }", "{x", "x}", "{x!}", "{é}", "{\"é\"}", "{x:>3}", "{}", "{0}", "%s", "%", "#", "\"", "'", "\"\"", "''",
+];
+
+/// A string literal assembled from corner-case pieces: every prefix, quote style, escape form (complete and cut
+/// short), brace form and multi-byte character, in random adjacency; sometimes left unterminated.
+pub fn strlit(ch: &mut Choices) -> String {
+    let prefix = *ch.pick(&["", "", "", "r", "b", "rb", "br", "f", "f", "f", "fr", "rf", "F", "R", "B", "u"]);
+    let quote = *ch.pick(&["\"", "\"", "'", "\"\"\"", "'''"]);
+    let mut s = format!("{prefix}{quote}");
+    let n = ch.idx(7);
+    for _ in 0..n {
+        s.push_str(ch.pick_s(STR_PIECES));
+    }
+    if !ch.chance(1, 8) {
+        s.push_str(quote);
+    }
+    s
+}
+
+fn a_str(ch: &mut Choices) -> String {
+    if ch.chance(2, 5) { (*ch.pick(STRS)).to_owned() } else { strlit(ch) }
+}
+
 fn tok(ch: &mut Choices) -> String {
     match ch.weighted(&[6, 1, 7, 5, 6, 4, 4, 3]) {
         0 => (*ch.pick(KEYWORDS)).to_owned(),
@@ -31,7 +57,7 @@ fn tok(ch: &mut Choices) -> String {
         3 => (*ch.pick(BRACKETS)).to_owned(),
         4 => (*ch.pick(IDENTS)).to_owned(),
         5 => (*ch.pick(NUMS)).to_owned(),
-        6 => (*ch.pick(STRS)).to_owned(),
+        6 => a_str(ch),
         _ => match ch.below(8) {
             0 => "#c\n".to_owned(),
             1 => "# é 😀\n".to_owned(),
@@ -86,20 +112,20 @@ pub fn lexcorner(ch: &mut Choices) -> String {
             break;
         }
         match ch.below(14) {
-            0 => s.push_str(&format!("x = {}", ch.pick(STRS))),
+            0 => s.push_str(&format!("x = {}", a_str(ch))),
             1 => s.push_str(&format!("x = {} + {}", ch.pick(NUMS), ch.pick(NUMS))),
-            2 => s.push_str(&format!("y = [{}, \\{nl}  {}]", ch.pick(NUMS), ch.pick(STRS))),
-            3 => s.push_str(&format!("def f(a):{nl}\tif a:{nl}\t\treturn {}{nl}    return 1", ch.pick(STRS))),
+            2 => s.push_str(&format!("y = [{}, \\{nl}  {}]", ch.pick(NUMS), a_str(ch))),
+            3 => s.push_str(&format!("def f(a):{nl}\tif a:{nl}\t\treturn {}{nl}    return 1", a_str(ch))),
             4 => s.push_str(&format!("if x:{nl}  y = 1{nl}    z = 2")),
-            5 => s.push_str(&format!("x = ({nl}  1,{nl}# c{nl}  {}{nl})", ch.pick(STRS))),
-            6 => s.push_str(&format!("s = {}.format({})", ch.pick(STRS), ch.pick(IDENTS))),
-            7 => s.push_str(&format!("{} {}", ch.pick(STRS), ch.pick(STRS))),
-            8 => s.push_str(&format!("x = {}{}", ch.pick(IDENTS), ch.pick(STRS))),
-            9 => s.push_str(&format!("# {} \\", ch.pick(STRS))),
+            5 => s.push_str(&format!("x = ({nl}  1,{nl}# c{nl}  {}{nl})", a_str(ch))),
+            6 => s.push_str(&format!("s = {}.format({})", a_str(ch), ch.pick(IDENTS))),
+            7 => s.push_str(&format!("{} {}", a_str(ch), a_str(ch))),
+            8 => s.push_str(&format!("x = {}{}", ch.pick(IDENTS), a_str(ch))),
+            9 => s.push_str(&format!("# {} \\", a_str(ch))),
             10 => s.push_str(&format!("x = 1 \\{nl}+ 2 \\")),
-            11 => s.push_str(&format!("x = {} if {} else {}", ch.pick(STRS), ch.pick(IDENTS), ch.pick(NUMS))),
-            12 => s.push_str(&format!("é = {}", ch.pick(STRS))),
-            _ => s.push_str(&format!("load({}, {}){nl}x = \"名\"; y = f\"{{x}}😀\"", ch.pick(STRS), ch.pick(STRS))),
+            11 => s.push_str(&format!("x = {} if {} else {}", a_str(ch), ch.pick(IDENTS), ch.pick(NUMS))),
+            12 => s.push_str(&format!("é = {}", a_str(ch))),
+            _ => s.push_str(&format!("load({}, {}){nl}x = \"名\"; y = f\"{{x}}😀\"", a_str(ch), a_str(ch))),
         }
         s.push_str(nl);
         if ch.chance(1, 8) {
